@@ -345,6 +345,69 @@ Proof.
     destruct (det_eqb e d); ring.
 Qed.
 
+(* ---- the general anticommutator and the Knowles–Handy folding identity ---- *)
+Lemma string_fn_length ops : forall d s e, string_fn ops d = Some (s, e) -> length e = length d.
+Proof.
+  induction ops as [|o r IH]; intros d s e H; simpl in H.
+  - unfold sid in H. inversion H; reflexivity.
+  - unfold scomp in H. destruct (string_fn r d) as [[s1 d1]|] eqn:E; [|discriminate].
+    destruct (op_fn o d1) as [[s2 d2]|] eqn:E2; [|discriminate]. inversion H; subst.
+    rewrite <- (IH d s1 d1 E). unfold op_fn in E2. destruct (odag o).
+    + eapply cre_length; eauto.
+    + eapply ann_length; eauto.
+Qed.
+
+Lemma wide_act_string ops n v : wide n v -> wide n (act_string ops v).
+Proof.
+  unfold act_string, lift. intros Hw e c Hin. apply in_flat_map in Hin. destruct Hin as [[e0 c0] [Hin0 Hin1]].
+  unfold lift1 in Hin1. simpl in Hin1. destruct (string_fn ops e0) as [[s e1]|] eqn:E; simpl in Hin1; [|contradiction].
+  destruct Hin1 as [Heq|[]]. inversion Heq; subst. rewrite (string_fn_length ops e0 s e E). apply (Hw e0 c0 Hin0).
+Qed.
+
+(* a†_q a_p = delta_pq - a_p a†_q, for all p, q *)
+Theorem car_cre_ann_general p q n v d : p < n -> wide n v ->
+  coeff (act_string [mkop q true; mkop p false] v) d
+  = (if Nat.eqb p q then coeff v d else 0) + - coeff (act_string [mkop p false; mkop q true] v) d.
+Proof.
+  intros Hp Hw. destruct (Nat.eqb_spec p q) as [<-|Hne].
+  - rewrite <- (car_ann_cre_same p n v d Hp Hw). ring.
+  - rewrite (car_ann_cre p q v d Hne). ring.
+Qed.
+
+(* a string acts on coefficient-wise linear combinations coefficient-wise *)
+Lemma act_string_combo a (x : R) u u1 u2 :
+  (forall e, coeff u e = x * coeff u1 e + - coeff u2 e) ->
+  forall d, coeff (act_string a u) d = x * coeff (act_string a u1) d + - coeff (act_string a u2) d.
+Proof.
+  intros H d. rewrite !coeff_act_string. destruct (string_fn (string_adj a) d) as [[s e]|]; [|ring].
+  rewrite H. destruct s; simpl; ring.
+Qed.
+
+(* Knowles–Handy folding:  i† j† k l  =  delta_jk  i† l  -  i† k j† l   (operator positions; any i, l) *)
+Theorem kh_folding i j k l n v d : k < n -> wide n v ->
+  coeff (act_string [mkop i true; mkop j true; mkop k false; mkop l false] v) d
+  = (if Nat.eqb k j then coeff (act_string [mkop i true; mkop l false] v) d else 0)
+    + - coeff (act_string [mkop i true; mkop k false; mkop j true; mkop l false] v) d.
+Proof.
+  intros Hk Hw.
+  set (w := act_string [mkop l false] v).
+  assert (Ww : wide n w) by (apply wide_act_string; exact Hw).
+  change [mkop i true; mkop j true; mkop k false; mkop l false] with ([mkop i true] ++ [mkop j true; mkop k false; mkop l false]).
+  change [mkop i true; mkop k false; mkop j true; mkop l false] with ([mkop i true] ++ [mkop k false; mkop j true; mkop l false]).
+  change [mkop i true; mkop l false] with ([mkop i true] ++ [mkop l false]).
+  rewrite !act_string_app.
+  assert (C := act_string_combo [mkop i true] (if Nat.eqb k j then 1 else 0)
+                 (act_string [mkop j true; mkop k false; mkop l false] v) w
+                 (act_string [mkop k false; mkop j true; mkop l false] v)).
+  rewrite C.
+  - fold w. destruct (Nat.eqb k j); ring.
+  - intros e.
+    change [mkop j true; mkop k false; mkop l false] with ([mkop j true; mkop k false] ++ [mkop l false]).
+    change [mkop k false; mkop j true; mkop l false] with ([mkop k false; mkop j true] ++ [mkop l false]).
+    rewrite !act_string_app. fold w.
+    rewrite (car_cre_ann_general k j n w e Hk Ww). destruct (Nat.eqb k j); ring.
+Qed.
+
 (* polynomials *)
 Lemma coeff_act_poly p v d :
   coeff (act_poly p v) d =
@@ -352,6 +415,29 @@ Lemma coeff_act_poly p v d :
 Proof.
   induction p as [|[c ops] p IH]; simpl; [reflexivity|].
   unfold act_poly in *. simpl. rewrite coeff_app, coeff_vscale, IH. reflexivity.
+Qed.
+
+(* the two-body part of a Hamiltonian, folded the way the Knowles–Handy kernels apply it:
+   every term  c i† j† k l  becomes  (c delta_jk) i† l  -  c (i† k)(j† l)  *)
+Definition two_body_poly (ts : list (R * (nat * nat * nat * nat))) : poly :=
+  map (fun t => match t with (c, (i, j, k, l)) =>
+         (c, [mkop i true; mkop j true; mkop k false; mkop l false]) end) ts.
+Definition kh_folded_poly (ts : list (R * (nat * nat * nat * nat))) : poly :=
+  flat_map (fun t => match t with (c, (i, j, k, l)) =>
+         [((if Nat.eqb k j then c else 0), [mkop i true; mkop l false]);
+          (- c, [mkop i true; mkop k false; mkop j true; mkop l false])] end) ts.
+
+Theorem kh_folded_poly_sound ts n v d :
+  (forall c i j k l, In (c, (i, j, k, l)) ts -> k < n) -> wide n v ->
+  coeff (act_poly (two_body_poly ts) v) d = coeff (act_poly (kh_folded_poly ts) v) d.
+Proof.
+  intros Hk Hw. rewrite !coeff_act_poly.
+  induction ts as [|[c [[[i j] k] l]] ts IH]; [reflexivity|].
+  cbn [two_body_poly kh_folded_poly map flat_map app fold_right fst snd].
+  fold (two_body_poly ts). fold (kh_folded_poly ts).
+  rewrite IH by (intros c' i' j' k' l' Hin; apply (Hk c' i' j' k' l'); right; exact Hin).
+  rewrite (kh_folding i j k l n v d (Hk c i j k l (or_introl eq_refl)) Hw).
+  destruct (Nat.eqb k j); ring.
 Qed.
 
 Theorem act_poly_linear p a u v d :
